@@ -306,8 +306,58 @@ def ob_metis():
     return verify(body, timeout_ms=60000)
 
 
+@obligation("metis/grids_of_walls_symbolic_distances", params=[{"shape": sh} for sh in ("3", "2x2", "2x1x2")], timeout=200,
+            desc="METIS PS7 on an array of SYMBOLIC distances with a per-link wall count (concrete pattern mixing 0 and N walls inside "
+                 "every row): every element of _calc_deterministic_path_loss_dB equals the scalar formula for its own distance and "
+                 "its own wall count, for all distances and carrier frequencies")
+def ob_metis_grid(shape):
+    shp = tuple(int(x) for x in shape.split("x"))
+
+    def body(c, it):
+        fc = c.var("fc", "real")
+        c.assume(fc > 0)
+        o = _mk(it, "PathLossMetisPS7", 2000.0)
+        it.setattr(o, "fc", fc)
+        D = np.empty(shp, dtype=object)
+        W = np.zeros(shp, dtype=int)
+        for n, pos in enumerate(np.ndindex(*shp)):
+            D[pos] = c.var("d" + "_".join(map(str, pos)), "real")
+            c.assume(D[pos] > 0)
+            W[pos] = (0, 2, 1, 0, 3, 0, 1, 2)[(n + (pos[0] if len(pos) > 1 else 0)) % 8]
+        G = _call(it, o, "_calc_deterministic_path_loss_dB", D, num_walls=W)
+        goals = [Goal("result has the shape of the distances", np.shape(G) == shp)]
+        if np.shape(G) != shp:
+            return goals
+        for pos in np.ndindex(*shp):
+            w = int(W[pos])
+            A, B = (18.7, 46.8) if w == 0 else (36.8, 43.8)
+            spec = A * D[pos].log10() + B + 20 * (fc / 1000.0 / 5.0).log10() + (0 if w == 0 else 5 * (w - 1))
+            goals.append(Goal("element %s (walls=%d) == scalar formula of its own distance" % (list(pos), w), lift(G[pos]) == spec))
+        return goals
+
+    def rp(model):
+        import pyphysim.channels.pathloss as m
+        try:
+            o = m.PathLossMetisPS7(2400.0)
+            rr = np.random.RandomState(5)
+            D = 10 ** rr.uniform(0.3, 2.5, shp)
+            W = np.zeros(shp, dtype=int)
+            for n, pos in enumerate(np.ndindex(*shp)):
+                W[pos] = (0, 2, 1, 0, 3, 0, 1, 2)[(n + (pos[0] if len(pos) > 1 else 0)) % 8]
+            G = np.asarray(o._calc_deterministic_path_loss_dB(D, num_walls=W))
+            for pos in np.ndindex(*shp):
+                sc = float(o._calc_deterministic_path_loss_dB(float(D[pos]), num_walls=int(W[pos])))
+                if G.shape != shp or (not (abs(G[pos] - sc) <= 1e-9)):
+                    return {"confirmed": True, "shape": list(shp), "position": list(pos), "walls": int(W[pos]), "distance": float(D[pos]),
+                            "array result": float(G[pos]) if G.shape == shp else None, "scalar result": sc}
+            return {"confirmed": False, "note": "real class agrees element-wise for generic distances"}
+        except Exception as e:
+            return {"confirmed": False, "error": "replay crashed: %r" % (e,)}
+    return verify(body, timeout_ms=60000, replay=rp)
+
+
 @obligation("metis/array_walls", kind="bounded",
-            desc="METIS with array distances and per-element wall counts equals the scalar formula element-wise (sampled)")
+            desc="METIS with array distances and per-element wall counts (1-D, 2-D and 3-D grids whose rows mix links with and without walls) equals the scalar formula element-wise (sampled)")
 def ob_metis_array():
     import pyphysim.channels.pathloss as m
     r = stable_rng("C13metis")
@@ -328,6 +378,21 @@ def ob_metis_array():
             s = o.calc_path_loss_dB(float(d[i]), num_walls=int(w[i]))
             if (not (abs(got[i] - s) <= 1e-9)) or (not (abs(lin[i] - 10 ** (-s / 10)) <= 1e-12)):
                 return {"i": i, "array": float(got[i]), "scalar": float(s), "lin": float(lin[i])}
+        # the same for distance / wall-count GRIDS (links x links, as the scenario applications use them): rows mixing links with and
+        # without walls, also a 3-D block
+        rr = np.random.RandomState(int(case["fc"]) % 100000)
+        for shape in ((2, 3), (3, 1), (2, 2, 2)):
+            D = 10 ** rr.uniform(0, 3, shape)
+            W = rr.randint(0, 3, shape)
+            W.flat[0], W.flat[-1] = 0, 2            # at least one link of each kind, in different rows
+            G = np.asarray(o.calc_path_loss_dB(D, num_walls=W))
+            if G.shape != D.shape:
+                return {"grid shape": list(G.shape), "expected": list(D.shape)}
+            for pos in np.ndindex(*shape):
+                sc = o.calc_path_loss_dB(float(D[pos]), num_walls=int(W[pos]))
+                if (not (abs(G[pos] - sc) <= 1e-9)):
+                    return {"grid shape": list(shape), "position": list(pos), "distance": float(D[pos]), "walls": int(W[pos]),
+                            "array result": float(G[pos]), "scalar result": float(sc)}
         return None
     return bounded(gen(), check)
 
